@@ -5,6 +5,7 @@ import NxProofs.NexDateTime
 import NxProofs.NexDateTimeInv
 import NxProofs.C15Zone
 import NxProofs.NexStationURL
+import NxProofs.NexStationURLInt
 import NxProofs.NexObjWalk
 import NxProofs.NexHolderPoly
 /-!
@@ -20,7 +21,8 @@ where `struct.pack` raises — see the `…_ok_iff` theorems), the reader applie
 value and leaves exactly `rest`, for every `rest`.
 
 NOT proved here (differential only, see manifest): typed `getitem` after `parse (repr u)` for *int-valued*
-parameters (needs `int(str(n)) = n` for the modelled `int()`; model and tie exist, the proof does not).
+parameters (the needed `int(str(n)) = n` for the modelled `int()` IS proved now, `stationurl_int_of_str`; its composition with
+`parse (repr u)` into the typed getitem statement is not).
 (The other direction of the calendar bijection, `civilOfDays (daysOfCivil y m d) = (y, m, d)`, IS proved now:
 `civil_roundtrip_inverse`, `civil_date_of_day_unique`, and with it `datetime_to_unix_and_back`.)
 -/
@@ -208,6 +210,14 @@ theorem civil_roundtrip (z : Nat) :
     1 ≤ (civilOfDays z).2.1 ∧ (civilOfDays z).2.1 ≤ 12 ∧ 1 ≤ (civilOfDays z).2.2 ∧
     (civilOfDays z).2.2 ≤ daysInMonth (civilOfDays z).1 (civilOfDays z).2.1 :=
   ⟨daysOfCivil_civilOfDays z, civilOfDays_valid z⟩
+
+/-- Python's `int(str(v)) = v` for the modelled `int()` (surrounding white space, optional sign, single underscores between
+digits) and `str()`: the value of an int-valued StationURL parameter survives its text form, for every integer -/
+theorem stationurl_int_of_str (v : Int) : StationURL.pyInt (StationURL.intStr v) = some v := StationURL.pyInt_intStr v
+
+/-- and the parser is not the identity on text: white space, a plus sign and underscores are accepted, a double underscore is not -/
+example : StationURL.pyInt " +1_000 ".toList = some 1000 ∧ StationURL.pyInt "-42".toList = some (-42) ∧
+    StationURL.pyInt "1__0".toList = none ∧ StationURL.pyInt "".toList = none := by decide
 
 open DateTime in
 /-- civil date → days → civil date is the identity on every valid calendar date of every year ≥ 1 (no upper bound):
